@@ -567,14 +567,51 @@ Definition lf_get_query (opts : list bytes) : option bytes :=
   let q := lf_join_amp (map lf_escape_query opts) in
   match q with [] => None | _ :: _ => Some q end.
 
+(* wellknown_hexval / wellknown_unescape_query (src/coap_net.c): the handler undoes the %XX
+   escapes of coap_get_query before it filters *)
+Definition lf_hexval (c : Z) : option Z :=
+  if (48 <=? c) && (c <=? 57) then Some (c - 48)
+  else if (65 <=? c) && (c <=? 70) then Some (c - 55)
+  else if (97 <=? c) && (c <=? 102) then Some (c - 87)
+  else None.
+
+Fixpoint lf_unescape_query (s : bytes) : bytes :=
+  match s with
+  | [] => []
+  | c :: tl =>
+    if c =? 37 then
+      match tl with
+      | h :: l :: tl2 =>
+        match lf_hexval h, lf_hexval l with
+        | Some a, Some b => (a * 16 + b) :: lf_unescape_query tl2
+        | _, _ => c :: lf_unescape_query tl
+        end
+      | _ => c :: lf_unescape_query tl
+      end
+    else c :: lf_unescape_query tl
+  end.
+
 (* GET /.well-known/core with these Uri-Query options, COAP_BLOCK_USE_LIBCOAP set: the body
    handed to coap_add_data_large_response *)
 Definition lf_handle_get (rs : list lf_res) (opts : list bytes) : lf_resp :=
+  lf_get_wellknown rs (match lf_get_query opts with
+                       | Some q => Some (lf_unescape_query q)
+                       | None => None
+                       end).
+
+(* the handler before that repair: the escaped text went to the printer as it is *)
+Definition lf_handle_get_escaped (rs : list lf_res) (opts : list bytes) : lf_resp :=
   lf_get_wellknown rs (lf_get_query opts).
 
-(* the same without COAP_BLOCK_USE_LIBCOAP (block mode 0, the default of a new context):
-   the body is cut to the room left in the response PDU (max_size - used_size - 1) and sent
-   as a complete response *)
+(* the filter the request asks for: the bytes of its Uri-Query options, joined by '&' *)
+Definition lf_raw_query (opts : list bytes) : option bytes :=
+  match lf_join_amp opts with [] => None | q => Some q end.
+
+(* without COAP_BLOCK_USE_LIBCOAP (block mode 0, the default of a new context) the handler
+   now renders the listing for every request and hands it to coap_add_data_blocked_response,
+   which serves block n of the requested size: lf_block (lf_handle_get ..) szx n.
+   Before that repair the body was cut to the room left in the response PDU
+   (max_size - used_size - 1) and sent as a complete response: *)
 Definition lf_handle_get_nolib (rs : list lf_res) (opts : list bytes) (room : Z) : lf_resp :=
   match lf_handle_get rs opts with
   | Lf205 b => Lf205 (if room <? len b then take room b else b)
